@@ -306,3 +306,30 @@ Proof. repeat split; vm_compute; reflexivity. Qed.
 Example C20_bin_ex_position :
   finv exb_s0 /\ finv exb_s1 /\ finv exb_s2 /\ delivered (snd exb_s2) = 2 /\ rdr_position exb_s2 = 2.
 Proof. repeat split. Qed.
+
+(* ---------- skip_container against its fault-free specification (C09_bin_reader_skip_lands) ---------- *)
+(* within d pos c b r: the reader (b, r) stands inside the data d that was pending at position
+   pos: d = skipped prefix ++ window ++ unread, position = pos + |skipped prefix|, capacity c.
+   Under ANY schedule, called just after an Open with a buffer fitting the pending data and the
+   matching close present: the skip lands exactly where token counting lands, or reports the I/O
+   error from a position inside the pending data. *)
+Theorem C20_bin_skip_container_fault_lands : forall s d pos c r,
+  st_okf s d pos c -> fits c d = true -> balanced_read d = Some r ->
+  (exists s', rdr_skip_container s = (Err E_Io, s') /\ within d pos c (fst s') (snd s')) \/
+  (exists s', rdr_skip_container s = (Ok tt, s') /\ st_okf s' r (pos + (length d - length r)) c).
+Proof. exact bin_skip_container_fault_lands. Qed.
+Print Assumptions C20_bin_skip_container_fault_lands.
+
+(* FINDING bin-skip-container-not-resumable (a limitation, reproduced by the model; nothing is
+   claimed about retrying skip_container): the nesting depth is a local of skip_container and is
+   lost when the call returns E_Io.  Body '{ } } id' (a container holding one nested container):
+   the fault hits after the inner Open was consumed; the retried call starts again at depth 1,
+   takes the inner Close for the matching one and returns Ok at position 4 instead of 6. *)
+Definition exn_body : bytes := concat (map write_token [BOpen; BClose; BClose; BId 10285%N]).
+Example C20_bin_ex_finding_skip_container_retry :
+  balanced_read exn_body = Some [45; 40]%N /\ fits 16 exn_body = true /\
+  let r1 := rdr_skip_container (rdr_new 16 [Data 2; Fail; Data 10] exn_body) in
+  fst r1 = Err E_Io /\ rdr_position (snd r1) = 2 /\
+  fst (rdr_skip_container (snd r1)) = Ok tt /\ rdr_position (snd (rdr_skip_container (snd r1))) = 4 /\
+  rdr_position (snd (rdr_skip_container (rdr_new 16 [Data 2; Data 10] exn_body))) = 6.
+Proof. cbv zeta. repeat split; vm_compute; reflexivity. Qed.
